@@ -50,7 +50,7 @@ func (n *derNode) encode() []byte {
 }
 
 func dSeq(kids ...*derNode) *derNode { return &derNode{tag: 16, cons: true, kids: kids} }
-func dOct(b []byte) *derNode          { return &derNode{tag: 4, content: b} }
+func dOct(b []byte) *derNode         { return &derNode{tag: 4, content: b} }
 func dOID(arcs ...int) *derNode {
 	b, _ := asn1.Marshal(asn1.ObjectIdentifier(arcs))
 	return &derNode{tag: 6, content: b[2:]}
@@ -441,13 +441,32 @@ func C13(c *core.Ctx) {
 			}, "")
 		}
 	}
+	// component n's element replaced by a look-alike whose OID continues past the component arc
+	// (...2.n.x) or stops short of it: component n is then missing
+	for n := 1; n <= 18; n++ {
+		n := n
+		for _, tail := range [][]int{{1}, {0}, {n}, {1, 1}} {
+			arcs := append([]int{2, n}, tail...)
+			mal(fmt.Sprintf("TCB element %d replaced by a look-alike with OID suffix %v", n, arcs), func(v sgxVals) []byte {
+				val := dIntI(int64(r.Intn(200)))
+				if n == 18 {
+					val = dOct(core.RandBytes(r, 16))
+				}
+				return setTcb(v, n-1, dSeq(sgxOid(arcs...), val))
+			}, "")
+		}
+	}
 	for _, arcs := range [][]int{{0}, {6}, {255}, {1, 0}, {2, 1}} {
 		arcs := arcs
 		mal(fmt.Sprintf("PPID element replaced by one with OID suffix %v", arcs), func(v sgxVals) []byte {
 			return setEl(v, 0, dSeq(sgxOid(arcs...), dOct(v.ppid)))
 		}, "")
 	}
-	mal("17 TCB elements", func(v sgxVals) []byte { el := v.elems(); el[1] = dSeq(sgxOid(2), dSeq(v.tcbElems()[:17]...)); return top(el) }, "")
+	mal("17 TCB elements", func(v sgxVals) []byte {
+		el := v.elems()
+		el[1] = dSeq(sgxOid(2), dSeq(v.tcbElems()[:17]...))
+		return top(el)
+	}, "")
 	mal("19 TCB elements", func(v sgxVals) []byte {
 		el := v.elems()
 		el[1] = dSeq(sgxOid(2), dSeq(append(v.tcbElems(), dSeq(sgxOid(2, 19), dIntI(1)))...))
